@@ -86,6 +86,8 @@ class UpdateTaskState(Unit):
             "a starting report on a completed record appends a fresh record and leaves the completed one untouched"},
         "C13.uts.no_transition_on_retry": {"props": ["C13"], "text":
             "when the attempt is retried no transition is decided, nothing is staged for successors, the tally grows by exactly one and the task is re-staged ready with its retry settings"},
+        "C13.uts.retry_only_on_completing_report": {"props": ["C13", "C18"], "text":
+            "an attempt is retried only by the report that completes it: a late or duplicate report for a record that was already completed (transitions decided) never reopens it"},
         "C07.uts.ready_from_satisfied": {"props": ["C07"], "text":
             "the ready flag of a (re)staged non-command successor equals 'inbound criteria satisfied'"},
         "C04.uts.run_on_fail_marking": {"props": ["C04", "C10"], "text":
@@ -471,6 +473,8 @@ class UpdateTaskState(Unit):
             else:
                 O("C13.uts.no_transition_on_retry", True)
 
+            O("C13.uts.retry_only_on_completing_report",
+              not (new_status == st.RETRYING and old_status in st.COMPLETED_STATUSES and not fresh_record))
             # consumed on start
             if kind == "action" and stg is not None and not retried:
                 O("C01.uts.consumed_on_start", not any(x is stg for x in staged))
